@@ -9,6 +9,39 @@ thread_local! {
     static ACTIVE: Cell<bool> = const { Cell::new(false) };
     static BYTES: Cell<usize> = const { Cell::new(0) };
     static CALLS: Cell<usize> = const { Cell::new(0) };
+    // allocation-failure injection (current thread only): while WATCH is set every allocation call is
+    // counted in SEEN, and if FAIL is set the first one returns null (and clears FAIL)
+    static WATCH: Cell<bool> = const { Cell::new(false) };
+    static FAIL: Cell<bool> = const { Cell::new(false) };
+    static SEEN: Cell<usize> = const { Cell::new(0) };
+}
+
+/// true if this allocation call has to fail
+#[inline]
+fn inject() -> bool {
+    WATCH
+        .try_with(|w| {
+            if !w.get() {
+                return false;
+            }
+            let _ = SEEN.try_with(|c| c.set(c.get() + 1));
+            FAIL.try_with(|f| f.replace(false)).unwrap_or(false)
+        })
+        .unwrap_or(false)
+}
+
+/// start watching the current thread's allocation calls; with `fail` the first one returns null
+pub fn watch_start(fail: bool) {
+    SEEN.with(|c| c.set(0));
+    FAIL.with(|f| f.set(fail));
+    WATCH.with(|w| w.set(true));
+}
+
+/// stop watching; returns (allocation calls seen, whether the requested failure was delivered)
+pub fn watch_stop(requested: bool) -> (usize, bool) {
+    WATCH.with(|w| w.set(false));
+    let pending = FAIL.with(|f| f.replace(false));
+    (SEEN.with(|c| c.get()), requested && !pending)
 }
 
 #[inline]
@@ -23,6 +56,9 @@ fn note(size: usize) {
 
 unsafe impl GlobalAlloc for Counting {
     unsafe fn alloc(&self, l: Layout) -> *mut u8 {
+        if inject() {
+            return std::ptr::null_mut();
+        }
         note(l.size());
         System.alloc(l)
     }
@@ -30,10 +66,16 @@ unsafe impl GlobalAlloc for Counting {
         System.dealloc(p, l)
     }
     unsafe fn alloc_zeroed(&self, l: Layout) -> *mut u8 {
+        if inject() {
+            return std::ptr::null_mut();
+        }
         note(l.size());
         System.alloc_zeroed(l)
     }
     unsafe fn realloc(&self, p: *mut u8, l: Layout, new_size: usize) -> *mut u8 {
+        if inject() {
+            return std::ptr::null_mut();
+        }
         note(new_size);
         System.realloc(p, l, new_size)
     }
